@@ -168,6 +168,9 @@ class _ReadOnly(object):
 
 @guarded(60)
 def check_case(case):
+    if case.get("kind") == "chars":
+        from vf.props import c07
+        return c07.check_chars(case, "C15")
     import webencodings
     from html5lib.serializer import HTMLSerializer
     doc, enc, omit, walker = case["doc"], case["encoding"], bool(case.get("omit")), case.get("walker", "etree")
@@ -275,11 +278,16 @@ def shrink_extra(case, fails):
 
 def shards(tier):
     quick = tier == "quick"
-    return [{"kind": "hyp", "n": 2500 if quick else 30000} for _ in range(16)]
+    return [{"kind": "hyp", "n": 2500 if quick else 30000} for _ in range(16)] + [{"kind": "chars", "part": i, "of": 2} for i in range(2)]
 
 
 def run_shard(desc, seed, tier):
     acc = Acc()
+    if desc["kind"] == "chars":
+        # 'every character the encoding cannot express is written as a character reference': all code points, in runs
+        from vf.props import c07
+        c07.run_chars(acc, desc["part"], desc["of"], ["ascii", "windows-1251", "koi8-r", "iso-8859-15", "macintosh", "euc-kr", "gbk"], "C15")
+        return acc
     labels = usable_labels()
 
     def fn(x):
